@@ -63,7 +63,7 @@ func (f *Rem) Call(s *slip.Scope, args slip.List, depth int) (result slip.Object
 		div := (*big.Int)(d.(*slip.Bignum))
 		var z big.Int
 		_ = z.Rem((*big.Int)(num), div)
-		result = (*slip.Bignum)(&z)
+		result = intReduce(&z)
 	case slip.Real:
 		div := (d.(slip.Real)).RealValue()
 		nf := num.RealValue()
